@@ -128,6 +128,48 @@ def directed_reference_duplicates(ctx):
     return len(docs), sum(1 for (_, _, dup), r in zip(docs, res) if dup), sum(1 for r in res if r["outcome"] == "accept")
 
 
+def generated_alias_documents(ctx):
+    """Documents whose own identifiers are all distinct but one of whose checkpoints carries the alias of a checkpoint
+    that validation generates itself (stitched connections, psuedo-checkpoints of threads): whatever else is said about
+    such a document, it must not be reported as containing duplicates."""
+    import os, glob
+    from corr import interp as I
+    bases = []
+    for f in sorted(glob.glob(os.path.join(ctx.repo_copy, "schemas", "test", "*.json"))):
+        rel = os.path.relpath(f, os.path.join(ctx.repo_copy, "schemas"))[:-5]
+        try:
+            bases.append(("file:" + rel, json.load(open(f))))
+        except Exception:
+            continue
+        bases.append(("imports:" + rel, I.importing_doc(rel)))
+    acc = I.run_verdicts(ctx.repo_copy, [b[1] for b in bases], mode="--full")
+    bases = [b for b, v in zip(bases, acc) if v == "accept"]
+    aliases = I.run_verdicts(ctx.repo_copy, [b[1] for b in bases], mode="--aliases")
+    dep = {"compare": {"left": {"ref": "action:0.object_promise.completed"}, "right": {"value": True}, "operator": "DOES_NOT_EQUAL"}}
+    docs = []
+    for (name, doc), al in zip(bases, aliases):
+        own = set(c.get("alias") for c in doc.get("checkpoints", []) if isinstance(c, dict))
+        ids = [c.get("id") for c in doc.get("checkpoints", []) if isinstance(c, dict) and isinstance(c.get("id"), int)]
+        for a in al:
+            if a in own or not a.startswith("_"):
+                continue
+            d = copy.deepcopy(doc)
+            d.setdefault("checkpoints", []).append({"id": max(ids + [0]) + 50, "alias": a, "description": "hand written", "dependencies": [dep]})
+            docs.append((name, a, d))
+    if not docs:
+        return 0
+    pool = impl.Pool(ctx, 4)
+    res = pool.validate_many([d for _, _, d in docs])
+    pool.close()
+    bad = 0
+    for (name, a, d), r in zip(docs, res):
+        if any("duplicate" in e for e in r["errors"]) and bad < 2:
+            bad += 1
+            ctx.violation({"what": "a document whose own identifiers are all distinct is reported as containing duplicates (its checkpoint alias equals one that validation generates)",
+                           "base": name, "alias": a, "document": d, "implementation": r})
+    return len(docs)
+
+
 def run(ctx):
     ok, thms, log = kernel.proof_step(ctx)
     rng = random.Random(ctx.seed)
@@ -158,6 +200,7 @@ def run(ctx):
     items += engine.make_mutant_items(ctx, rng, 250 if quick else 2500, owners=("C10",))
     ev3 = engine.run_items(ctx, items)
     engine.report(ctx, items, "T3 correspondence: duplicates injected into whole documents vs Coq model")
+    ctx.coverage["generated_alias_documents"] = generated_alias_documents(ctx)
     n_dir, n_dup, n_acc = directed_reference_duplicates(ctx)
     ctx.coverage["directed_reference_duplicates"] = {"documents": n_dir, "with_duplicate": n_dup, "accepted": n_acc}
     # ---- known findings
